@@ -5,7 +5,7 @@ Import ListNotations.
 
 Ltac simp_a := cbn [a_stop a_abort a_expiring a_expire_ok a_sleep a_cancel a_on_eq a_expire a_result
                     t_busy t_prep t_queued t_running p_owns p_sleep g_subs g_cbs g_fin g_bad_result g_early
-                    g_stop_returned g_cb_after_stop g_subs_at_stop threads upd_threads] in *.
+                    g_stop_returned g_cb_after_stop g_subs_at_stop threads upd_threads a_done] in *.
 
 Definition tok_act (a : pact) : nat := match a with PFinish _ | PDispatch => 1 | _ => 0 end.
 Fixpoint tok_thread (t : list pact) : nat := match t with [] => 0 | a :: r => tok_act a + tok_thread r end.
@@ -66,13 +66,14 @@ Proof. unfold Inv1, tokens; cbn. repeat split; auto; try lia; intros; discrimina
 
 Section Fixed.
 Variable fixed : bool.
+Variable fdone : bool.
 
 Ltac tok_simp := unfold tokens, spawn in *; cbn [app] in *; simp_a; rewrite ?tok_threads_app in *; cbn [tok_threads tok_thread tok_act app] in *.
 
 Ltac inv5 := split; [|split; [|split; [|split; [split|]]]].
 Ltac i4 I4 := try (intros P; apply I4 in P; lia); try (intros P; apply I4; lia).
 
-Theorem inv1_step s l s' : Inv1 s -> astep fixed s l = Some s' -> Inv1 s'.
+Theorem inv1_step s l s' : Inv1 s -> astep fixed fdone s l = Some s' -> Inv1 s'.
 Proof.
   intros (I1 & I2 & I3 & I4 & I5) H. unfold Inv1.
   destruct l as [zero dl sleep eok|rv|rv|now| | |k| | | ]; cbn [astep] in H.
@@ -89,7 +90,7 @@ Proof.
     intros SL. destruct (I5 SL) as [_ PS]. rewrite PS in NS. discriminate.
   - (* LAbort *)
     destruct (rv =? 0)%N; [discriminate|].
-    destruct (a_cancel s); inversion H; subst; clear H; tok_simp; inv5; try lia; auto; i4 I4;
+    destruct (a_cancel s); [|destruct (fdone && a_done s)]; inversion H; subst; clear H; tok_simp; inv5; try lia; auto; i4 I4;
       try (intros SL; apply I5 in SL; tauto).
   - (* LExpire: the scan only marks *)
     destruct (a_on_eq s && negb (a_expiring s)) eqn:OE; [|discriminate].
@@ -177,14 +178,14 @@ Definition Inv2 (s : aio) : Prop :=
 Lemma inv2_init : Inv2 aio_init.
 Proof. split; [intros; discriminate|reflexivity]. Qed.
 
-Theorem inv2_step s l s' : Inv1 s -> Inv2 s -> astep fixed s l = Some s' -> Inv2 s'.
+Theorem inv2_step s l s' : Inv1 s -> Inv2 s -> astep fixed fdone s l = Some s' -> Inv2 s'.
 Proof.
   intros (I1 & I2 & I3 & I4 & I5) [J1 J2] H. unfold Inv2.
   destruct l as [zero dl sleep eok|rv|rv|now| | |k| | | ]; cbn [astep] in H.
   - destruct (outstanding s); [discriminate|].
     destruct (a_stop s); [|destruct (a_abort s); [|destruct zero]]; inversion H; subst; unfold spawn; simp_a; auto.
   - destruct (p_owns s && negb (p_sleep s)); inversion H; subst; unfold spawn; simp_a; auto.
-  - destruct (rv =? 0)%N; [discriminate|]. destruct (a_cancel s); inversion H; subst; unfold spawn; simp_a; auto.
+  - destruct (rv =? 0)%N; [discriminate|]. destruct (a_cancel s); [|destruct (_ && a_done s)]; inversion H; subst; unfold spawn; simp_a; auto.
   - destruct (a_on_eq s && negb (a_expiring s)) eqn:OE; [|discriminate].
     destruct (negb match a_expire s with Some e => (e <? now)%N | None => false end); [discriminate|].
     inversion H; subst; unfold spawn; simp_a; auto.
@@ -212,15 +213,15 @@ Proof.
 Qed.
 
 (* ---- reachability ---- *)
-Lemma arun_inv ls : forall s, Inv1 s -> Inv2 s -> forall s', arun fixed s ls = Some s' -> Inv1 s' /\ Inv2 s'.
+Lemma arun_inv ls : forall s, Inv1 s -> Inv2 s -> forall s', arun fixed fdone s ls = Some s' -> Inv1 s' /\ Inv2 s'.
 Proof.
   induction ls as [|l r IH]; intros s A B s' H; cbn [arun] in H.
   - inversion H; subst. auto.
-  - destruct (astep fixed s l) as [s1|] eqn:S; [|discriminate].
+  - destruct (astep fixed fdone s l) as [s1|] eqn:S; [|discriminate].
     eapply IH; [eapply inv1_step; eauto|eapply inv2_step; eauto|exact H].
 Qed.
 
-Theorem aio_exactly_once ls s : arun fixed aio_init ls = Some s ->
+Theorem aio_exactly_once ls s : arun fixed fdone aio_init ls = Some s ->
   g_subs s = g_cbs s + t_queued s + tokens s /\ g_cbs s <= g_subs s /\ tokens s + t_queued s <= 1 /\
   t_busy s = (if t_prep s then 1 else 0) + t_queued s + t_running s.
 Proof.
@@ -228,7 +229,7 @@ Proof.
   repeat split; auto. lia.
 Qed.
 
-Theorem aio_stop_quiesces ls s : arun fixed aio_init ls = Some s ->
+Theorem aio_stop_quiesces ls s : arun fixed fdone aio_init ls = Some s ->
   g_cb_after_stop s = false /\ (g_stop_returned s = true -> g_subs_at_stop s <= g_cbs s).
 Proof.
   intros H. destruct (arun_inv ls aio_init inv1_init inv2_init s H) as [_ [J1 J2]]. auto.
@@ -236,7 +237,7 @@ Qed.
 
 (* at the moment nni_aio_stop returns nothing is queued, running or in flight *)
 Theorem aio_stop_return_state s k rest s' :
-  Inv1 s -> nth_error (threads s) k = Some (PStopWait :: rest) -> astep fixed s (LRun k) = Some s' ->
+  Inv1 s -> nth_error (threads s) k = Some (PStopWait :: rest) -> astep fixed fdone s (LRun k) = Some s' ->
   t_queued s' = 0 /\ t_running s' = 0 /\ tokens s' = 0 /\ g_cbs s' = g_subs s' /\ a_stop s' = a_stop s.
 Proof.
   intros (I1 & I2 & I3 & I4 & I5) N H. cbn [astep] in H. rewrite N in H. cbn [run_pact] in H.
@@ -277,12 +278,12 @@ Proof. induction ts as [|t r IH]; cbn; [lia|]. pose proof (dsp_le_tok_thread t).
 Definition late_abort_run : list alabel :=
   [LStart false None false false; LProvFinish 0; LRun 0; LAbort A_CANCELED; LRun 0; LRunCb].
 Theorem aio_result_refuted :
-  exists s, arun fixed aio_init late_abort_run = Some s /\ g_bad_result s = true.
+  exists s, arun fixed false aio_init late_abort_run = Some s /\ g_bad_result s = true.
 Proof. eexists. split; [vm_compute; reflexivity|reflexivity]. Qed.
 
 (* an abort is "late" when the framework holds no cancel function and a completion is on its way *)
 Definition not_late (s : aio) (l : alabel) : Prop :=
-  match l with LAbort _ => a_cancel s = true \/ (g_fin s = None /\ p_owns s = false /\ tokens s = 0) | _ => True end.
+  match l with LAbort _ => a_cancel s = true \/ (fdone && a_done s = true) \/ g_fin s = None | _ => True end.
 
 Definition InvR (s : aio) : Prop :=
   g_bad_result s = false /\
@@ -310,7 +311,7 @@ Qed.
 
 Ltac invr := split; [|split].
 
-Theorem invR_step s l s' : Inv1 s -> InvR s -> not_late s l -> astep fixed s l = Some s' -> InvR s'.
+Theorem invR_step s l s' : Inv1 s -> InvR s -> not_late s l -> astep fixed fdone s l = Some s' -> InvR s'.
 Proof.
   intros HI1 HR NL H. pose proof HI1 as (I1 & I2 & I3 & I4 & I5). pose proof HR as (J1 & J2 & J3).
   unfold InvR.
@@ -329,10 +330,11 @@ Proof.
     unfold spawn; simp_a. rewrite dsp_threads_app. cbn [dsp_threads dsp_thread dsp_act].
     invr; auto. rewrite !Nat.add_0_r. exact J3.
   - (* LAbort *)
-    destruct (rv =? 0)%N; [discriminate|]. destruct (a_cancel s) eqn:C; inversion H; subst; clear H.
+    destruct (rv =? 0)%N; [discriminate|]. destruct (a_cancel s) eqn:C; [|destruct (fdone && a_done s) eqn:FD]; inversion H; subst; clear H.
     + unfold spawn; simp_a. rewrite dsp_threads_app. cbn [dsp_threads dsp_thread dsp_act].
       invr; auto. rewrite !Nat.add_0_r. exact J3.
-    + destruct NL as [X|(F & O & T)]; [discriminate|]. simp_a. invr; auto. intros r E. congruence.
+    + simp_a. invr; auto.
+    + destruct NL as [X|[X|F]]; [discriminate|discriminate|]. simp_a. invr; auto. intros r E. congruence.
   - (* LExpire *)
     destruct (a_on_eq s && negb (a_expiring s)) eqn:OE; [|discriminate].
     destruct (negb match a_expire s with Some e => (e <? now)%N | None => false end); [discriminate|].
@@ -438,15 +440,15 @@ Qed.
 Fixpoint arun_nl (s : aio) (ls : list alabel) : Prop :=
   match ls with
   | [] => True
-  | l :: r => not_late s l /\ match astep fixed s l with Some s1 => arun_nl s1 r | None => True end
+  | l :: r => not_late s l /\ match astep fixed fdone s l with Some s1 => arun_nl s1 r | None => True end
   end.
 
 Theorem aio_result_consistent_partial ls : forall s s',
-  Inv1 s -> Inv2 s -> InvR s -> arun_nl s ls -> arun fixed s ls = Some s' -> g_bad_result s' = false.
+  Inv1 s -> Inv2 s -> InvR s -> arun_nl s ls -> arun fixed fdone s ls = Some s' -> g_bad_result s' = false.
 Proof.
   induction ls as [|l r IH]; intros s s' A B C NL H; cbn [arun arun_nl] in *.
   - inversion H; subst. apply C.
-  - destruct NL as [NL1 NL2]. destruct (astep fixed s l) as [s1|] eqn:S; [|discriminate].
+  - destruct NL as [NL1 NL2]. destruct (astep fixed fdone s l) as [s1|] eqn:S; [|discriminate].
     eapply (IH s1); eauto.
     + eapply inv1_step; eauto.
     + eapply inv2_step; eauto.
@@ -473,7 +475,7 @@ Qed.
 Definition internal (l : alabel) : Prop := match l with LRun _ | LRunCb | LCbDone => True | _ => False end.
 
 (* every step of the library's own threads makes progress *)
-Theorem aio_internal_decreases s l s' : internal l -> astep fixed s l = Some s' -> mu s' < mu s.
+Theorem aio_internal_decreases s l s' : internal l -> astep fixed fdone s l = Some s' -> mu s' < mu s.
 Proof.
   intros I H. destruct l; try destruct I; cbn [astep] in H.
   - destruct (nth_error (threads s) k) as [[|a rest]|] eqn:N; try discriminate.
@@ -513,14 +515,14 @@ End Fixed.
 
 (* ---- a timeout is never delivered before the deadline (repaired expire loop);
         the expire loop of the pinned tree did deliver one: the witness ---- *)
-Lemma early_step s l s' : astep true s l = Some s' -> g_early s = false -> g_early s' = false.
+Lemma early_step fd s l s' : astep true fd s l = Some s' -> g_early s = false -> g_early s' = false.
 Proof.
   intros H E.
   destruct l as [zero dl sleep eok|rv|rv|now| | |k| | | ]; cbn [astep] in H.
   - destruct (outstanding s); [discriminate|].
     destruct (a_stop s); [|destruct (a_abort s); [|destruct zero]]; inversion H; subst; unfold spawn; simp_a; auto.
   - destruct (p_owns s && negb (p_sleep s)); inversion H; subst; unfold spawn; simp_a; auto.
-  - destruct (rv =? 0)%N; [discriminate|]. destruct (a_cancel s); inversion H; subst; unfold spawn; simp_a; auto.
+  - destruct (rv =? 0)%N; [discriminate|]. destruct (a_cancel s); [|destruct (_ && a_done s)]; inversion H; subst; unfold spawn; simp_a; auto.
   - destruct (a_on_eq s && negb (a_expiring s)) eqn:OE; [|discriminate].
     destruct (negb match a_expire s with Some e => (e <? now)%N | None => false end); [discriminate|].
     inversion H; subst; unfold spawn; simp_a; auto.
@@ -542,12 +544,12 @@ Proof.
   - destruct (outstanding s); [discriminate|]. inversion H; subst. simp_a. auto.
 Qed.
 
-Theorem aio_timeout_not_early_holds ls : forall s s',
-  g_early s = false -> arun true s ls = Some s' -> g_early s' = false.
+Theorem aio_timeout_not_early_holds fd ls : forall s s',
+  g_early s = false -> arun true fd s ls = Some s' -> g_early s' = false.
 Proof.
   induction ls as [|l r IH]; intros s s' E H; cbn [arun] in H.
   - inversion H; subst; auto.
-  - destruct (astep true s l) as [s1|] eqn:S; [|discriminate]. eapply IH; [|exact H]. eapply early_step; eauto.
+  - destruct (astep true fd s l) as [s1|] eqn:S; [|discriminate]. eapply IH; [|exact H]. eapply early_step; eauto.
 Qed.
 
 (* operation 1 (deadline 5) is found due by the scan at time 10 and marked; before the
@@ -556,12 +558,12 @@ Qed.
 Definition early_timeout_run : list alabel :=
   [LStart false (Some 5%N) false false; LExpire 10%N; LProvFinish 0; LRun 1; LRun 1; LRunCb; LCbDone;
    LStart false (Some 1000%N) false false; LRun 0].
-Theorem aio_timeout_early_refuted :
-  exists s, arun false aio_init early_timeout_run = Some s /\ g_early s = true.
-Proof. eexists. split; [vm_compute; reflexivity|reflexivity]. Qed.
-Theorem aio_timeout_early_repaired :
-  exists s, arun true aio_init early_timeout_run = Some s /\ g_early s = false /\ p_owns s = true /\ a_expiring s = false.
-Proof. eexists. split; [vm_compute; reflexivity|repeat split]. Qed.
+Theorem aio_timeout_early_refuted fd :
+  exists s, arun false fd aio_init early_timeout_run = Some s /\ g_early s = true.
+Proof. destruct fd; eexists; (split; [vm_compute; reflexivity|reflexivity]). Qed.
+Theorem aio_timeout_early_repaired fd :
+  exists s, arun true fd aio_init early_timeout_run = Some s /\ g_early s = false /\ p_owns s = true /\ a_expiring s = false.
+Proof. destruct fd; eexists; (split; [vm_compute; reflexivity|repeat split]). Qed.
 
 (* ---- when nni_aio_stop (nni_aio_fini) returns, the expire thread holds no reference to the
         aio: it is not marked expiring and no continuation of the expire loop for it is
@@ -612,7 +614,7 @@ Proof. destruct rest; reflexivity. Qed.
 Lemma opt_thread_sw rest : match match rest with [] => None | _ :: _ => Some rest end with Some t' => sw_thread t' | None => 0 end = sw_thread rest.
 Proof. destruct rest; reflexivity. Qed.
 
-Theorem invE_step fixed s l s' : InvE s -> astep fixed s l = Some s' -> InvE s'.
+Theorem invE_step fixed fd s l s' : InvE s -> astep fixed fd s l = Some s' -> InvE s'.
 Proof.
   intros (E1 & E2 & E3) H. unfold InvE.
   destruct l as [zero dl sleep eok|rv|rv|now| | |k| | | ]; cbn [astep] in H.
@@ -623,7 +625,7 @@ Proof.
   - destruct (p_owns s && negb (p_sleep s)); inversion H; subst; clear H.
     unfold spawn; simp_a; rewrite ?exp_threads_app, ?sw_threads_app; cbn [exp_threads exp_thread exp_act sw_threads sw_thread sw_act];
       rewrite ?Nat.add_0_r; inve; auto.
-  - destruct (rv =? 0)%N; [discriminate|]. destruct (a_cancel s); inversion H; subst; clear H;
+  - destruct (rv =? 0)%N; [discriminate|]. destruct (a_cancel s); [|destruct (_ && a_done s)]; inversion H; subst; clear H;
       unfold spawn; simp_a; rewrite ?exp_threads_app, ?sw_threads_app; cbn [exp_threads exp_thread exp_act sw_threads sw_thread sw_act];
       rewrite ?Nat.add_0_r; inve; auto.
   - destruct (a_on_eq s && negb (a_expiring s)) eqn:OE; [|discriminate]. apply andb_true_iff in OE as [O1 O2].
@@ -686,12 +688,72 @@ Proof.
   - destruct (outstanding s); [discriminate|]. inversion H; subst. simp_a. inve; auto.
 Qed.
 
-Theorem aio_stop_no_expire_reference fixed ls : forall s s', InvE s -> arun fixed s ls = Some s' ->
+Theorem aio_stop_no_expire_reference fixed fd ls : forall s s', InvE s -> arun fixed fd s ls = Some s' ->
   InvE s' /\ (g_stop_returned s' = true ->
               a_expiring s' = false /\ exp_threads (threads s') = 0 /\ a_on_eq s' = false).
 Proof.
   induction ls as [|l r IH]; intros s s' HI H; cbn [arun] in H.
   - inversion H; subst. split; [exact HI|]. destruct HI as (E1 & E2 & E3). intros G.
     destruct (E3 (or_intror G)) as [ST EX]. rewrite EX in E1. auto.
-  - destruct (astep fixed s l) as [s1|] eqn:S; [|discriminate]. eapply IH; [eapply invE_step; eauto|exact H].
+  - destruct (astep fixed fd s l) as [s1|] eqn:S; [|discriminate]. eapply IH; [eapply invE_step; eauto|exact H].
+Qed.
+
+(* ---- result consistency in full, for the repaired nni_aio_abort (fix e9a11c8: fdone = true):
+        a completion in flight implies a_done, so no abort is ever "late" ---- *)
+Definition InvD (s : aio) : Prop := g_fin s <> None -> a_done s = true.
+
+Lemma invD_init : InvD aio_init.
+Proof. unfold InvD; cbn. congruence. Qed.
+
+Theorem invD_step fixed fd s l s' : Inv1 s -> InvR s -> InvD s -> astep fixed fd s l = Some s' -> InvD s'.
+Proof.
+  intros HI1 HR D H. pose proof HI1 as (I1 & I2 & I3 & I4 & I5). pose proof HR as (J1 & J2 & J3). unfold InvD in *.
+  destruct l as [zero dl sleep eok|rv|rv|now| | |k| | | ]; cbn [astep] in H.
+  - destruct (outstanding s); [discriminate|].
+    destruct (a_stop s); [|destruct (a_abort s); [|destruct zero]]; inversion H; subst; unfold spawn; simp_a; auto; congruence.
+  - destruct (p_owns s && negb (p_sleep s)); inversion H; subst; unfold spawn; simp_a; auto.
+  - destruct (rv =? 0)%N; [discriminate|]. destruct (a_cancel s); [|destruct (fd && a_done s)]; inversion H; subst; unfold spawn; simp_a; auto.
+  - destruct (a_on_eq s && negb (a_expiring s)); [|discriminate].
+    destruct (negb match a_expire s with Some e => (e <? now)%N | None => false end); [discriminate|].
+    inversion H; subst; unfold spawn; simp_a; auto.
+  - destruct (a_expiring s); [discriminate|]. inversion H; subst. destruct (a_cancel s); unfold spawn; cbn [app]; simp_a; auto.
+  - inversion H; subst. destruct (a_cancel s); unfold spawn; simp_a; auto.
+  - destruct (nth_error (threads s) k) as [[|a rest]|] eqn:N; try discriminate.
+    destruct (run_pact fixed s a) as [[s1 more]|] eqn:R; [|discriminate]. inversion H; subst; clear H. simp_a.
+    destruct a; cbn [run_pact] in R.
+    + inversion R; subst. unfold do_dispatch; simp_a. auto.
+    + inversion R; subst. unfold do_finish; simp_a. auto.
+    + unfold do_call_cancel in R. destruct (p_owns s); inversion R; subst; simp_a; auto.
+    + unfold do_expire_proc in R.
+      destruct (fixed && negb match a_expire s with Some e => (e <? now)%N | None => false end);
+        [|destruct (a_sleep s); [|destruct (a_cancel s)]]; inversion R; subst; simp_a; auto.
+    + inversion R; subst. simp_a. auto.
+    + destruct (t_busy s =? 0); inversion R; subst. simp_a. auto.
+  - destruct (t_queued s); [discriminate|]. inversion H; subst. simp_a. congruence.
+  - destruct (t_running s); [discriminate|]. inversion H; subst. simp_a. auto.
+  - destruct (outstanding s) eqn:O; [discriminate|]. apply outstanding_false in O as [T0 Q0].
+    inversion H; subst; clear H. simp_a.
+    assert (F: g_fin s = None).
+    { destruct (g_fin s) eqn:F; [|reflexivity].
+      assert (X: dsp_threads (threads s) + t_queued s = 1) by (apply J3; congruence).
+      pose proof (dsp_le_tok (threads s)). unfold tokens in T0. destruct (p_owns s); lia. }
+    congruence.
+Qed.
+
+(* with the repaired abort no reachable abort is late *)
+Lemma done_not_late s l : InvD s -> not_late true s l.
+Proof.
+  intros D. destruct l; cbn [not_late]; auto.
+  destruct (a_cancel s); [left; reflexivity|right].
+  destruct (g_fin s) eqn:F; [left|right; reflexivity]. cbn [andb]. apply D. congruence.
+Qed.
+
+Theorem aio_result_consistent_holds fixed ls : forall s s',
+  Inv1 s -> Inv2 s -> InvR s -> InvD s -> arun fixed true s ls = Some s' -> g_bad_result s' = false.
+Proof.
+  induction ls as [|l r IH]; intros s s' A B C D H; cbn [arun] in H.
+  - inversion H; subst. apply C.
+  - destruct (astep fixed true s l) as [s1|] eqn:S; [|discriminate].
+    eapply (IH s1); [eapply inv1_step; eauto|eapply inv2_step; eauto| |eapply invD_step; eauto|exact H].
+    eapply (invR_step fixed true); eauto. apply done_not_late. exact D.
 Qed.
